@@ -32,7 +32,7 @@ META = {
         "design_ref": "DESIGN.md §3 C04",
     },
     "C05": {
-        "text": "Coq theorems: for Ising replicas on the same graph with same-sign couplings, the implemented swap probability p_swap times the product weight before the exchange equals the product weight after it (beta factor and Hamiltonian factor from bond counts, all strings, all ladders); a Metropolis exchange with that ratio balances the product weight, also inside a longer ladder; a pair is exchanged with probability exactly min(1,p_swap), moving only the configuration, under one shared cutoff. "
+        "text": "PARTIAL proof. Program-level theorem: the WHOLE replica-exchange step of the model (tempering_step: fair choice of the order of the two pairing phases, one Metropolis test per neighbouring pair; the term replayed on the container's raw words) leaves the product of the replicas' own SSE weights W_0(C_0) W_1(C_1) ... stationary, in weak form for every observable, on every ladder space closed under neighbour exchanges whose neighbouring pairs satisfy the executable premise swap_hyps; each pairing phase is proved to be a reversible kernel on ladders (transition probabilities computed pair by pair, pair-level Metropolis balance from the ratio identity, involution of the exchange); the step kernel is proved equal to the model program; premises shown satisfiable on a two-replica ladder with different Hamiltonians and betas. Not proved: that the time steps between exchanges keep each factor stationary beyond C01's scope (h != 0 cluster kernel, RVB), ergodicity. Further Coq theorems: for Ising replicas on the same graph with same-sign couplings, the implemented swap probability p_swap times the product weight before the exchange equals the product weight after it (beta factor and Hamiltonian factor from bond counts, all strings, all ladders); a Metropolis exchange with that ratio balances the product weight, also inside a longer ladder; a pair is exchanged with probability exactly min(1,p_swap), moving only the configuration, under one shared cutoff. "
                 "Tempering steps of the serial and rayon drivers are replayed on raw RNG words and every swap threshold is bisected (c10), with the theorem's executable premise evaluated on every probed pair; that every rung samples its own thermal distribution is decided against exact diagonalisation on ladders of 2-5 replicas. PARTIAL: per-replica stationarity is C01-C03, ergodicity is oracle-tested.",
         "note": "Trusted: Coq kernel + vm_compute; model transcription; rayon (C13); exact-diagonalisation oracle.",
         "technique": "Coq proof (swap probability = weight ratio; exchange balance on the product weight) + raw-tape replay / threshold bisection of tempering steps + exact-diagonalisation oracle",
@@ -76,7 +76,7 @@ META = {
         "design_ref": "DESIGN.md §3 C17",
     },
     "C10": {
-        "text": "Coq theorems: a pair is exchanged with probability exactly min(1, p_swap) (exact distribution of the swap program, any p_swap); an exchange moves only operator string and "
+        "text": "The transition probabilities of a whole pairing phase are computed pair by pair in closed form (exchanged with min(1,p_swap), kept with the complement, independently per pair, nothing else reachable) and the phase is a reversible kernel for the product weight (see C05). Coq theorems: a pair is exchanged with probability exactly min(1, p_swap) (exact distribution of the swap program, any p_swap); an exchange moves only operator string and "
                 "state; the counter counts accepted exchanges; all replicas share the ladder-maximum cutoff; the temperature factor equals the ratio of the beta^n weight factors. "
                 "The model's p_swap (bond-count formula incl. the Hamiltonian ratio and the HamInfo equality shortcut) is tied to the code by replaying serial and rayon tempering steps of real "
                 "Ising ladders (2..8 replicas, unequal cutoffs) on the container's raw RNG words, and by bisecting the uniform at which an exchange flips and comparing it with the model to 2^-40.",
